@@ -379,8 +379,10 @@ func ParseOp(op string) (kind string, c *Case, err error) {
 		}
 		if gi == 0 {
 			kind = f[1]
-			c.Rnd, _ = strconv.Atoi(f[2])
-			c.PriorQ = f[3] == "1"
+			if len(f) >= 4 {
+				c.Rnd, _ = strconv.Atoi(f[2])
+				c.PriorQ = f[3] == "1"
+			}
 			continue
 		}
 		switch f[0] {
@@ -567,6 +569,11 @@ func (c *Case) publishedAt(name string) (pubAt, pubRec) {
 	case len(recs) == 0:
 		return atNothing, pubRec{}
 	case len(recs) > 1:
+		for _, t := range recs {
+			if readRecord(t).outside {
+				return atOutside, pubRec{}
+			}
+		}
 		return atMultiple, pubRec{}
 	}
 	r := readRecord(recs[0])
@@ -1015,7 +1022,7 @@ func Random(r *vh.Rng) *Case {
 // Enumerate calls f for a structured sweep: author domains × lookup outcome × policy tags ×
 // alignment modes × SPF result/identity × DKIM result sets.  stride thins the sweep
 // deterministically (1 = everything).
-func Enumerate(stride int, offset int, f func(*Case)) int {
+func Enumerate(stride int, offset int, f func(*Case), total ...*int) int {
 	authors := []string{"example.com", "sub.example.com", "EXAMPLE.CO.UK", "sub.example.co.uk", "alice.github.io", "co.uk"}
 	lookups := []string{"at-domain", "at-org", "none", "multiple", "nxdomain", "servfail", "junk-then-org", "servfail-at-org"}
 	pols := []string{"none", "quarantine", "reject", ""}
@@ -1139,7 +1146,20 @@ func Enumerate(stride int, offset int, f func(*Case)) int {
 			}
 		}
 	}
+	for _, t := range total {
+		*t = n
+	}
 	return emitted
+}
+
+// EnumStride returns the stride that thins the sweep to about target cases.
+func EnumStride(target int) int {
+	total := 0
+	Enumerate(1<<40, 1, func(*Case) {}, &total)
+	if target <= 0 || total <= target {
+		return 1
+	}
+	return (total + target - 1) / target
 }
 
 // identsFor: the identifier domains that stand in the property's relations to the author domain:
